@@ -206,6 +206,20 @@ def run(ctx: core.Ctx):
         if not ok:
             ctx.fail(".dekad accessor", dict(time=str(t)), {k: str(v[i]) for k, v in cols.items()}, "element-wise equal to the scalar class")
     ctx.count("accessor elements", len(times))
+    # nanosecond axes at the two ends of the nanosecond range: the dekads of 1677-09-21.. and 2262-04-11.. start / end outside it
+    edge = pd.DatetimeIndex([pd.Timestamp("1677-09-25 12:00"), pd.Timestamp("1677-10-05"), pd.Timestamp("2000-02-29"), pd.Timestamp("2262-04-05"), pd.Timestamp("2262-04-11 06:00")]).as_unit("ns")
+    try:
+        acc3 = xr.DataArray(np.arange(len(edge)), dims=("time",), coords={"time": edge}).time.dekad
+        got3 = dict(start=acc3.start_date.values, end=acc3.end_date.values, raw=acc3.raw.values)
+        for i, tt in enumerate(edge):
+            dk = Dekad(tt.to_pydatetime())
+            ctx.evaluations += 1
+            if not (got3["raw"][i] == dk.raw and pd.Timestamp(got3["start"][i]) == pd.Timestamp(dk.start_date) and pd.Timestamp(got3["end"][i]) == pd.Timestamp(dk.end_date)):
+                ctx.fail(".dekad accessor", dict(time=str(tt), axis="datetime64[ns]"), dict(start=str(got3["start"][i]), end=str(got3["end"][i])),
+                         dict(start=str(dk.start_date), end=str(dk.end_date)), note="element-wise equal to the scalar class")
+    except Exception as e:  # noqa: BLE001
+        ctx.fail(".dekad accessor", dict(times=[str(v) for v in edge], axis="datetime64[ns]"), repr(e)[:160], "no exception: the scalar class handles these instants")
+    ctx.count("accessor elements at the ends of the ns range", len(edge))
     # time axes of other resolutions (NumPy day / second / millisecond arrays, also outside the nanosecond range of pandas)
     for unit in ("D", "s", "ms", "us"):
         days = sorted(rng.sample(range(693596, 740000), 40)) + ([rng.randrange(1, 500000) for _ in range(6)] if unit != "us" else [])
